@@ -857,8 +857,10 @@ def check_lead_in_grid(case, rec):
     require(dev <= tol,
             "lead-in grid spacing deviates from the request's dt=%r by %.3g (tolerance %.3g); lead=%r n_lead=%d",
             dreq, dev, tol, lead, n_lead)
-    # the request's dt is itself only known to an ulp of the times: n_lead samples of it
-    require(g[0] <= req[0] - lead + 1e-9 * dreq + 2 * (n_lead + 4) * ulp,
+    # the request's dt is itself only known to an ulp of the times, and the number of lead-in samples
+    # comes from (span + lead) / dt: the whole grid's worth of samples of that uncertainty
+    # (seen: lead = 3e-8 dt at t = 2e-4 s, 126 samples: 0 lead-in samples, 1.2e-18 s short)
+    require(g[0] <= req[0] - lead + 1e-9 * dreq + 2 * (len(req) + n_lead + 4) * ulp,
             "lead-in grid starts at %r, later than request[0] - lead_in_time = %r - %r (dt %r, %d lead-in samples)",
             float(g[0]), float(req[0]), lead, dreq, n_lead)
     require(np.array_equal(np.asarray(out.times, dtype=float), req), "result is not on the requested grid")
